@@ -884,7 +884,7 @@ def choice_injector(u, record):
 
 def corr_fock(ctx):
     rng = ctx.rng
-    n_cases = ctx.budget(80, 1200)
+    n_cases = ctx.budget(50, 1200)
     cases, terms = [], []
     for _ in range(n_cases):
         spec = gen_fock_case(rng)
